@@ -7,10 +7,31 @@ from .ops import run_op, BlockAbort
 from .world import World
 
 
+def keynamed_disk(dc):
+    """A Disk subclass (the documented extension point, as tests/test_core.py SHA256FilenameDisk) whose value files are named
+    after the key they belong to; where the key is not known (push) the stock random name is used."""
+    cls = getattr(dc, '_verif_keynamed_disk', None)
+    if cls is None:
+        import hashlib
+        import os.path as osp
+
+        class KeyNamedDisk(dc.Disk):
+            def filename(self, key=dc.UNKNOWN, value=dc.UNKNOWN):
+                if key is dc.UNKNOWN:
+                    return super().filename(key, value)
+                name = hashlib.sha256(repr(key).encode('utf-8')).hexdigest()[:32]
+                filename = osp.join(name[:2], name[2:4], name[4:] + '.val')
+                return filename, osp.join(self._directory, filename)
+        cls = dc._verif_keynamed_disk = KeyNamedDisk
+    return cls
+
+
 def default_factory(dc, path, cfg):
     kind = cfg.get('target', 'cache')
     settings = dict(cfg.get('settings', {}))
     timeout = cfg.get('timeout', 60)
+    if kind == 'cache' and cfg.get('disk') == 'keynamed':
+        return dc.Cache(path, timeout=timeout, disk=keynamed_disk(dc), **settings)
     if kind == 'cache':
         return dc.Cache(path, timeout=timeout, **settings)
     if kind == 'fanout':
